@@ -888,36 +888,122 @@ func ruleFormatCursors(c *Ctx) {
 			})
 		}
 		n := 0
-		// per switch arm (block) and opcode known there: which counter was advanced by which span
-		type adv struct{ fam, fld string }
-		perBlock := map[*ssa.BasicBlock][]adv{}
-		blockOp := map[*ssa.BasicBlock]int64{}
-		blockPos := map[*ssa.BasicBlock]token.Pos{}
-		defer func(fn *ssa.Function) {
-			want := map[int64][]string{'-': {"L+X"}, '+': {"R+Y"}, '!': {"L+X", "R+Y"}, '=': {"L+X", "R+X"}}
-			k := 0
-			var bs []*ssa.BasicBlock
-			for b := range perBlock {
-				bs = append(bs, b)
+		// per opcode: by how much each line counter has moved when control leaves the arm for that opcode — read
+		// off the edges of the counters' φs (the merge after the switch, or the loop header), each edge belonging to
+		// the arm whose block it comes from; the opcode of an arm is the fact `e.Op == K` that holds there
+		{
+			var decode func(v ssa.Value, d int) ([]string, bool)
+			decode = func(v ssa.Value, d int) ([]string, bool) {
+				if d > 6 {
+					return nil, false
+				}
+				if _, isPhi := v.(*ssa.Phi); isPhi && fam[v] != "" {
+					return nil, true
+				}
+				if b0, ok := v.(*ssa.BinOp); ok && b0.Op == token.ADD {
+					if ln, ok := isBuiltinCall(b0.Y, "len"); ok {
+						if _, f := loadedField(ln.Call.Args[0]); f != nil && (f.Name() == "X" || f.Name() == "Y") {
+							rest, ok := decode(b0.X, d+1)
+							if !ok {
+								return nil, false
+							}
+							return append(rest, f.Name()), true
+						}
+					}
+				}
+				return nil, false
 			}
-			sort.Slice(bs, func(i, j int) bool { return bs[i].Index < bs[j].Index })
-			for _, b := range bs {
-				op, known := blockOp[b]
-				if !known {
+			armOp := func(p *ssa.BasicBlock) (int64, bool) {
+				if opF == nil {
+					return 0, false
+				}
+				for _, cm := range cmpsAt(p) {
+					if _, f2 := loadedField(cm.X); f2 != nil && sameField(f2, opF) && cm.Op == token.EQL {
+						if kk, ok := constInt(cm.Y); ok {
+							return kk, true
+						}
+					}
+				}
+				return 0, false
+			}
+			type armKey struct {
+				op int64
+			}
+			got := map[int64]map[string]bool{}
+			undec := map[int64]bool{}
+			posOf := map[int64]token.Pos{}
+			for v, fm := range fam {
+				ph, ok := v.(*ssa.Phi)
+				if !ok {
 					continue
 				}
-				var got []string
-				for _, a := range perBlock[b] {
-					got = append(got, a.fam+"+"+a.fld)
+				for i, e := range ph.Edges {
+					p := ph.Block().Preds[i]
+					op, known := armOp(p)
+					if !known {
+						continue
+					}
+					flds, ok := decode(e, 0)
+					if !ok {
+						undec[op] = true
+						continue
+					}
+					if got[op] == nil {
+						got[op] = map[string]bool{}
+					}
+					if len(flds) == 0 {
+						got[op][fm+"+0"] = true
+					}
+					for j, f := range flds {
+						got[op][fmt.Sprintf("%s+%s#%d", fm, f, j)] = true
+					}
+					if last := p.Instrs[len(p.Instrs)-1]; posOf[op] == token.NoPos {
+						posOf[op] = instrPos(last)
+					}
 				}
-				sort.Strings(got)
+			}
+			want := map[int64][]string{'-': {"L+X", "R+0"}, '+': {"L+0", "R+Y"}, '!': {"L+X", "R+Y"}, '=': {"L+X", "R+X"}}
+			var ops []int64
+			for op := range got {
+				ops = append(ops, op)
+			}
+			sort.Slice(ops, func(i, j int) bool { return ops[i] < ops[j] })
+			for _, op := range ops {
+				if undec[op] || want[op] == nil {
+					continue
+				}
+				var g []string
+				for k := range got[op] {
+					if i := strings.Index(k, "#"); i >= 0 {
+						if k[i:] == "#0" {
+							g = append(g, k[:i])
+						} else {
+							g = append(g, k[:i]+" again")
+						}
+					} else {
+						g = append(g, k)
+					}
+				}
+				sort.Strings(g)
+				// a family that never showed up on an edge of this arm did not move
+				for _, fm := range []string{"L", "R"} {
+					has := false
+					for _, x := range g {
+						if strings.HasPrefix(x, fm+"+") {
+							has = true
+						}
+					}
+					if !has {
+						g = append(g, fm+"+0")
+					}
+				}
+				sort.Strings(g)
 				w := append([]string{}, want[op]...)
 				sort.Strings(w)
-				k++
 				c.sawFn(fnName(fn))
-				c.judge(strings.Join(got, ",") == strings.Join(w, ","), "R-CURSOR-SIDE", fmt.Sprintf("%s:%s arm advances #%d", fnName(fn), opNames[op], k), blockPos[b], "advances "+strings.Join(w, ", "), fmt.Sprintf("in the arm for %s the line counters are advanced as [%s] (L/R = left/right counter, X/Y = the edit's spans); an edit of this kind consumes [%s]: a counter is left behind, advanced twice, or advanced by a span this kind of edit does not have", opNames[op], strings.Join(got, ", "), strings.Join(w, ", ")))
+				c.judge(strings.Join(g, ",") == strings.Join(w, ","), "R-CURSOR-SIDE", fmt.Sprintf("%s:%s arm advances", fnName(fn), opNames[op]), posOf[op], "advances "+strings.Join(w, ", "), fmt.Sprintf("when control leaves the arm for %s the line counters have moved by [%s] (L/R = left/right counter, X/Y = the edit's spans, 0 = not at all); an edit of this kind consumes [%s]: a counter is left behind, advanced twice, or advanced by a span this kind of edit does not have", opNames[op], strings.Join(g, ", "), strings.Join(w, ", ")))
 			}
-		}(fn)
+		}
 		allInstrs(fn, func(in ssa.Instruction) {
 			bo, ok := in.(*ssa.BinOp)
 			if !ok || bo.Op != token.ADD || fam[bo.X] == "" {
@@ -930,28 +1016,6 @@ func ruleFormatCursors(c *Ctx) {
 			eb, f := loadedField(ln.Call.Args[0])
 			if f == nil || (f.Name() != "X" && f.Name() != "Y") {
 				return
-			}
-			{
-				fl := false
-				for _, r := range referrersOf(bo) {
-					if ph, ok := r.(*ssa.Phi); ok && fam[ph] == fam[bo.X] {
-						fl = true
-					}
-					if b2, ok := r.(*ssa.BinOp); ok && b2.Op == token.ADD && b2.X == ssa.Value(bo) && fam[b2] == fam[bo.X] {
-						fl = true
-					}
-				}
-				if fl && opF != nil {
-					perBlock[bo.Block()] = append(perBlock[bo.Block()], adv{fam[bo.X], f.Name()})
-					blockPos[bo.Block()] = bo.Pos()
-					for _, cm := range cmpsAt(bo.Block()) {
-						if b2, f2 := loadedField(cm.X); f2 != nil && sameField(f2, opF) && sym(b2) == sym(eb) && cm.Op == token.EQL {
-							if kk, ok := constInt(cm.Y); ok {
-								blockOp[bo.Block()] = kk
-							}
-						}
-					}
-				}
 			}
 			// only advances that flow back into the counter (not line numbers computed for printing)
 			flows := false
